@@ -77,6 +77,10 @@ pub struct SimCfg {
     pub inject: bool,
     /// the scenario guarantees room for every undisturbed client at the end (e.g. the other client was disconnected)
     pub room_guaranteed: bool,
+    /// lossy baseline: every client -> server datagram emitted before this tick is lost
+    pub c2s_blackout_until: u32,
+    /// attacker injections towards client 0 as decision points (replays of the server's handshake replies)
+    pub inject_to_client: bool,
 }
 
 impl SimCfg {
@@ -98,6 +102,8 @@ impl SimCfg {
             fates: vec![NFate::Ok, NFate::Drop, NFate::Dup, NFate::Delay1, NFate::Delay2],
             inject: false,
             room_guaranteed: false,
+            c2s_blackout_until: 0,
+            inject_to_client: false,
         }
     }
     pub fn token_for(&self, i: usize) -> ConnectToken {
@@ -311,8 +317,8 @@ impl<'c> Sim<'c> {
         ctx.note(|| format!("t{} client{} -> {}: #{} {}", self.tick, i, to, d, self.describe(d)));
         probe.on_emit(self, d)?;
         let alive = self.cfg.server_addrs.iter().position(|a| *a == to).map(|k| self.cfg.alive[k]).unwrap_or(false);
-        if !alive {
-            return Ok(()); // nobody listens there
+        if !alive || self.tick < self.cfg.c2s_blackout_until {
+            return Ok(()); // nobody listens there / lossy baseline
         }
         self.fate(ctx, d, true);
         Ok(())
@@ -403,6 +409,21 @@ impl<'c> Sim<'c> {
                     }
                 });
                 due.sort();
+                if cfg.inject_to_client && i == 0 && self.faults_open {
+                    let opts: Vec<usize> = [2u8, 1, 4]
+                        .iter()
+                        .filter_map(|ty| self.dgs.iter().position(|g| g.by == Who::Server && g.to == me && g.opened.map(|o| o.0) == Some(*ty) && g.deliveries > 0))
+                        .collect();
+                    let k = ctx.choose(opts.len() + 1);
+                    if k > 0 {
+                        let src = opts[k - 1];
+                        let (from, bytes) = (self.dgs[src].from, self.dgs[src].bytes.clone());
+                        let d = self.record(Who::Attacker, from, me, bytes);
+                        ctx.flags |= NF_INJECT;
+                        ctx.note(|| format!("t{} attacker -> client{}: #{} replay of datagram #{} ({})", tick, i, d, src, self.describe(src)));
+                        due.push(d);
+                    }
+                }
                 for d in due {
                     let bytes = self.dgs[d].bytes.clone();
                     let before = Self::client_state_name(self.clients[i].as_ref().unwrap());
